@@ -34,3 +34,13 @@ pub mod io {
         Poll::Ready(Ok(n))
     }
 }
+pub mod sync {
+    //! `ReusableBoxFuture`: a boxed future that can be replaced (the allocation reuse of the real type is not modelled).
+    use std::{future::Future, pin::Pin, task::{Context, Poll}};
+    pub struct ReusableBoxFuture<'a, T> { boxed: Pin<Box<dyn Future<Output = T> + Send + 'a>> }
+    impl<'a, T> ReusableBoxFuture<'a, T> {
+        pub fn new<F: Future<Output = T> + Send + 'a>(future: F) -> Self { Self { boxed: Box::pin(future) } }
+        pub fn set<F: Future<Output = T> + Send + 'a>(&mut self, future: F) { self.boxed = Box::pin(future); }
+        pub fn poll(&mut self, cx: &mut Context<'_>) -> Poll<T> { self.boxed.as_mut().poll(cx) }
+    }
+}
